@@ -1033,12 +1033,18 @@ theorem second_call_silent (env : Env) (st : St) (op : Op) (obj : Obj) :
 
 /-! ## the other rendering wrappers: type2stan, constants, signatures, decorators, the search index -/
 
-/-- `safe_to_stan(…, fallback=colorized_pyval_fallback)` raises exactly when BOTH `to_stan` and the
-`to_node` of the fallback raise — and then it is `to_node`'s exception that escapes, unreported -/
-theorem pyval_raises_iff (env : Env) (st : St) (b : Body) (ctx : Obj) (sec : Sec) (e' : Exc) :
-    (safeToStanPyval env st b ctx sec).1 = .raises e' ↔
-      (∃ e, bodyToStan env b = .raises e) ∧ bodyToNode env b = .raises e' := by
+/-- `safe_to_stan(…, fallback=colorized_pyval_fallback)` always returns (4caea46) -/
+theorem pyval_total (env : Env) (st : St) (b : Body) (ctx : Obj) (sec : Sec) :
+    (safeToStanPyval env st b ctx sec).1.isOk = true := by
   unfold safeToStanPyval
+  cases bodyToStan env b <;> cases bodyToNode env b <;> rfl
+
+/-- HISTORICAL (before 4caea46): it raised exactly when BOTH `to_stan` and the `to_node` of the
+fallback raised — and then it was `to_node`'s exception that escaped, unreported -/
+theorem pyval_old_raises_iff (env : Env) (st : St) (b : Body) (ctx : Obj) (sec : Sec) (e' : Exc) :
+    (safeToStanPyvalOld env st b ctx sec).1 = .raises e' ↔
+      (∃ e, bodyToStan env b = .raises e) ∧ bodyToNode env b = .raises e' := by
+  unfold safeToStanPyvalOld
   cases hs : bodyToStan env b <;> cases hn : bodyToNode env b <;> simp
 
 theorem pyval_state (env : Env) (st : St) (b : Body) (ctx : Obj) (sec : Sec) :
@@ -1056,14 +1062,16 @@ theorem frame_pyval (T : Obj → Prop) (env : Env) (st : St) (b : Body) (ctx : O
   · exact Frame.refl _ _ _ _
   · exact frame_reportErrors _ _ _ _ _
 
-/-- a renderer failure inside the colorized value is reported against the object, in the wrapper's
-own section, when the fallback can be built -/
+/-- a renderer failure inside the colorized value / the type is reported against the object, in the
+wrapper's own section — whether or not the plain-text fallback could be built (then BROKEN is shown) -/
 theorem pyval_failure_reported (env : Env) (st : St) (b : Body) (ctx : Obj) (sec : Sec) (e : Exc)
-    (hs : bodyToStan env b = .raises e) (hn : bodyToNode env b = .returns) :
-    (safeToStanPyval env st b ctx sec).1 = .ok .code ∧
+    (hs : bodyToStan env b = .raises e) :
+    ((safeToStanPyval env st b ctx sec).1 = .ok .code ∨ (safeToStanPyval env st b ctx sec).1 = .ok .broken) ∧
     (sec, ctx) ∈ (safeToStanPyval env st b ctx sec).2.errors := by
-  simp only [safeToStanPyval, hs, hn]
-  exact ⟨trivial, reportErrors_mem _ _ _ _ (by simp)⟩
+  simp only [safeToStanPyval, hs]
+  cases bodyToNode env b
+  · exact ⟨.inl rfl, reportErrors_mem _ _ _ _ (by simp)⟩
+  · exact ⟨.inr rfl, reportErrors_mem _ _ _ _ (by simp)⟩
 
 /-- `format_signature` always returns: `(...)` and a report in section 'signature' on failure -/
 theorem signature_total (env : Env) (st : St) (obj : Obj) :
@@ -1081,74 +1089,46 @@ theorem signature_failure_reported (env : Env) (st : St) (obj : Obj) (e : Exc) (
   simp only [formatSignature, h]
   exact ⟨trivial, reportErrors_mem _ _ _ _ (by simp)⟩
 
-/-- the parameters never make the fallback of the colorized-value wrappers fail: whenever `to_stan`
-of a body raises, its `to_node` returns.  FALSE for a `ParsedTypeDocstring` (its `to_node` always
-raises NotImplementedError), which is what `type_counterexample` exploits. -/
-def FallbackSafe (env : Env) : Prop :=
-  ∀ b, (∃ e, bodyToStan env b = .raises e) → bodyToNode env b = .returns
-
-theorem pyval_ok_of_safe (env : Env) (h : FallbackSafe env) (st : St) (b : Body) (ctx : Obj) (sec : Sec) :
-    (safeToStanPyval env st b ctx sec).1.isOk = true := by
-  cases hr : (safeToStanPyval env st b ctx sec).1 with
-  | ok _ => rfl
-  | raises e' =>
-    obtain ⟨hs, hn⟩ := (pyval_raises_iff env st b ctx sec e').mp hr
-    rw [h b hs] at hn; cases hn
-
-theorem pyvalList_ok_of_safe (env : Env) (h : FallbackSafe env) (obj : Obj) (sec : Sec) :
+theorem pyvalList_total (env : Env) (obj : Obj) (sec : Sec) :
     ∀ (ks : List Nat) (st : St), (pyvalList env obj sec st ks).1.isOk = true
   | [], _ => rfl
   | k :: ks, st => by
-    have h1 := pyval_ok_of_safe env h st (.user k) obj sec
+    have h1 := pyval_total env st (.user k) obj sec
     unfold pyvalList
     split
     · rename_i e st' heq; rw [heq] at h1; cases h1
     · rename_i s st' heq
-      have h2 := pyvalList_ok_of_safe env h obj sec ks st'
+      have h2 := pyvalList_total env obj sec ks st'
       split
       · rename_i e st'' heq2; rw [heq2] at h2; cases h2
       · rfl
 
-/-
-Full statement — FALSE of the code at HEAD (`colorized_pyval_fallback` calls `doc.to_node()` without a
-handler; a `type` field processed by --process-types, or any google/numpy type, is a
-ParsedTypeDocstring whose `to_node` raises NotImplementedError):
-
-  theorem type_total (env : Env) (st : St) (obj : Obj) : (type2stan env st obj).1.isOk = true
-
-see `typed_failure_escapes` / `type_counterexample` (replayed on the real code: known finding
-`type2stan:fallback-raises`).
--/
-
-theorem type_total_partial (env : Env) (h : FallbackSafe env) (st : St) (obj : Obj) :
-    (type2stan env st obj).1.isOk = true := by
+/-- `type2stan` always returns (full statement; before 4caea46 only under a hypothesis on the fallback) -/
+theorem type_total (env : Env) (st : St) (obj : Obj) : (type2stan env st obj).1.isOk = true := by
   simp only [type2stan]
   split
   · rfl
   · rename_i b _
-    have h1 := pyval_ok_of_safe env h (getParsedType env st obj).2 b obj secAnnotation
+    have h1 := pyval_total env (getParsedType env st obj).2 b obj secAnnotation
     split
     · rfl
     · rename_i e st' heq; rw [heq] at h1; cases h1
 
-theorem constant_total_partial (env : Env) (h : FallbackSafe env) (st : St) (obj : Obj) :
-    (formatConstant env st obj).1.isOk = true :=
-  pyval_ok_of_safe env h st _ obj secConstant
+theorem constant_total (env : Env) (st : St) (obj : Obj) : (formatConstant env st obj).1.isOk = true :=
+  pyval_total env st _ obj secConstant
 
-theorem class_signature_total_partial (env : Env) (h : FallbackSafe env) (st : St) (obj : Obj) :
-    (formatClassSignature env st obj).1.isOk = true :=
-  pyvalList_ok_of_safe env h obj _ _ st
+theorem class_signature_total (env : Env) (st : St) (obj : Obj) : (formatClassSignature env st obj).1.isOk = true :=
+  pyvalList_total env obj _ _ st
 
-theorem decorators_total_partial (env : Env) (h : FallbackSafe env) (st : St) (obj : Obj) :
-    (formatDecorators env st obj).1.isOk = true :=
-  pyvalList_ok_of_safe env h obj _ _ st
+theorem decorators_total (env : Env) (st : St) (obj : Obj) : (formatDecorators env st obj).1.isOk = true :=
+  pyvalList_total env obj _ _ st
 
-/-- the general form of the defect: whenever the type shown for an object is a ParsedTypeDocstring
-(`Body.typed`) and its `to_stan` raises, `type2stan` lets NotImplementedError out -/
-theorem typed_failure_escapes (env : Env) (st : St) (obj : Obj) (k : Nat) (e : Exc)
+/-- HISTORICAL (before 4caea46): whenever the type shown for an object was a ParsedTypeDocstring
+(`Body.typed`) and its `to_stan` raised, `type2stan` let NotImplementedError out -/
+theorem typed_failure_escaped_old (env : Env) (st : St) (obj : Obj) (k : Nat) (e : Exc)
     (hb : (getParsedType env st obj).1 = some (.typed k)) (hs : env.typedToStan k = .raises e) :
-    (type2stan env st obj).1 = .raises .notImplemented := by
-  simp [type2stan, hb, safeToStanPyval, bodyToStan, bodyToNode, hs]
+    (type2stanOld env st obj).1 = .raises .notImplemented := by
+  simp [type2stanOld, hb, safeToStanPyvalOld, bodyToStan, bodyToNode, hs]
 
 /-- an Attribute whose docstring has a `type` field, with --process-types on, whose type renderer fails -/
 def envType : Env :=
@@ -1161,16 +1141,17 @@ def excOf {α : Type} : Res α → Option Exc
   | .ok _ => none
   | .raises e => some e
 
-theorem type_counterexample :
-    excOf (type2stan envType stCx 0).1 = some .notImplemented ∧ (type2stan envType stCx 0).2.reports = [] ∧
-    (formatDocstring envType stCx 0).1.isOk = true := by
-  decide
+def typOf : Res (Option Stan) → Option Stan
+  | .ok s => s
+  | .raises _ => none
 
-example : FallbackSafe { envCx with toNode := fun _ => .returns, typedToStan := fun k => .returns (.opaque k) } := by
-  intro b hb
-  cases b with
-  | user k => rfl
-  | typed k => obtain ⟨e, he⟩ := hb; simp [bodyToStan] at he
+/-- HISTORICAL counterexample (code before 4caea46, `type2stanOld`) next to what the code does now:
+the BROKEN placeholder, and the failure reported in section 'annotation' -/
+theorem type_old_counterexample :
+    excOf (type2stanOld envType stCx 0).1 = some .notImplemented ∧ (type2stanOld envType stCx 0).2.reports = [] ∧
+    typOf (type2stan envType stCx 0).1 = some .broken ∧
+    (type2stan envType stCx 0).2.reports = [⟨0, secAnnotation, .exc (.other 3), 0⟩] := by
+  decide
 
 /-- `get_parsed_type` on an Attribute reads the LAST `type` field of the attribute's own docstring and
 caches it; a second call returns the cached value without touching anything -/
@@ -1180,19 +1161,8 @@ theorem getParsedType_cached (env : Env) (st : St) (obj : Obj) (b : Body)
   generalize (getParsedType env st obj).2 = S at hp ⊢
   simp [getParsedType, hp]
 
-/-
-Full statement — FALSE of the code at HEAD (search.py `format_docstring` handles only
-NotImplementedError from `to_node`):
-
-  theorem search_total (env : Env) (st : St) (obj : Obj) : (searchDocstring env st obj).1.isOk = true
--/
-
-/-- the search-index text of an object is produced unless `to_node` raises something else than
-NotImplementedError — then that exception escapes (the whole run aborts while building the index) -/
-theorem search_raises_iff (env : Env) (st : St) (obj : Obj) :
-    (searchDocstring env st obj).1.isOk = false ↔
-      ∃ src pd e, (ensureParsed env st obj).1 = some src ∧
-        ((ensureParsed env st obj).2.objs obj).parsed = some pd ∧ pdToNode env pd = .raises e ∧ e ≠ .notImplemented := by
+/-- the search-index text of an object is always produced (e1378c4) -/
+theorem search_total (env : Env) (st : St) (obj : Obj) : (searchDocstring env st obj).1.isOk = true := by
   have hs := ensureParsed_some env st obj
   cases hsrc : (ensureParsed env st obj).1 with
   | none => simp [searchDocstring, hsrc, Res.isOk]
@@ -1200,30 +1170,29 @@ theorem search_raises_iff (env : Env) (st : St) (obj : Obj) :
     obtain ⟨hp, _⟩ := hs src hsrc
     cases hpd : ((ensureParsed env st obj).2.objs obj).parsed with
     | none => simp [hpd] at hp
+    | some pd => cases hn : pdToNode env pd <;> simp [searchDocstring, hsrc, hpd, hn, Res.isOk]
+
+/-- HISTORICAL (before e1378c4): the old code raised exactly when `to_node` raised something else than
+NotImplementedError — the whole run aborted while building the index -/
+theorem search_old_raises_iff (env : Env) (st : St) (obj : Obj) :
+    (searchDocstringOld env st obj).1.isOk = false ↔
+      ∃ src pd e, (ensureParsed env st obj).1 = some src ∧
+        ((ensureParsed env st obj).2.objs obj).parsed = some pd ∧ pdToNode env pd = .raises e ∧ e ≠ .notImplemented := by
+  have hs := ensureParsed_some env st obj
+  cases hsrc : (ensureParsed env st obj).1 with
+  | none => simp [searchDocstringOld, hsrc, Res.isOk]
+  | some src =>
+    obtain ⟨hp, _⟩ := hs src hsrc
+    cases hpd : ((ensureParsed env st obj).2.objs obj).parsed with
+    | none => simp [hpd] at hp
     | some pd =>
       cases hn : pdToNode env pd with
-      | returns => simp [searchDocstring, hsrc, hpd, hn, Res.isOk]
-      | raises e => by_cases he : e = .notImplemented <;> simp [searchDocstring, hsrc, hpd, hn, he, Res.isOk]
+      | returns => simp [searchDocstringOld, hsrc, hpd, hn, Res.isOk]
+      | raises e => by_cases he : e = .notImplemented <;> simp [searchDocstringOld, hsrc, hpd, hn, he, Res.isOk]
 
-theorem search_total_partial (env : Env)
-    (h1 : ∀ k e, env.toNode k = .raises e → e = .notImplemented)
-    (h2 : ∀ t e, env.plainToNode t = .raises e → e = .notImplemented) (st : St) (obj : Obj) :
-    (searchDocstring env st obj).1.isOk = true := by
-  cases hr : (searchDocstring env st obj).1.isOk with
-  | true => rfl
-  | false =>
-    obtain ⟨src, pd, e, _, _, hn, he⟩ := (search_raises_iff env st obj).mp hr
-    exfalso; apply he
-    cases pd with
-    | plain t => exact h2 t e hn
-    | stanOnly s => simp [pdToNode] at hn; exact hn.symm
-    | user k fs => exact h1 k e hn
-
-/-- witness (replayed on the real code: known finding `search:to_node-exception-escapes`): the parser
-succeeds, `to_node` raises ValueError: body, summary and toc are produced, the search text is not -/
-theorem search_counterexample :
-    (searchDocstring envCx stCx 0).1.isOk = false ∧ (formatDocstring envCx stCx 0).1.isOk = true ∧
-    (formatToc envCx stCx 0).1.isOk = true := by
+/-- HISTORICAL counterexample (`searchDocstringOld`): the parser succeeds, `to_node` raises ValueError -/
+theorem search_old_counterexample :
+    (searchDocstringOld envCx stCx 0).1.isOk = false ∧ (searchDocstring envCx stCx 0).1.isOk = true := by
   decide
 
 /-- what ANY of the rendering calls may change, loosely: only `obj`, the object its docstring comes
@@ -1353,9 +1322,37 @@ theorem loose_xstep (env : Env) (st : St) (op : XOp) (obj : Obj) :
     · exact hf
     · split
       · exact hf
-      · split
-        · exact hf
-        · split <;> exact hf
+      · split <;> exact hf
+
+/-- `Docstring.xtotal`: EVERY rendering entry point returns — the five of `total` and type2stan, the
+constant value, the signature, the class signature, the decorators and the search text — for every
+behaviour of every parameter (parsers, renderers, colorizers, signature formatter), every state and
+object (`extract_fields` under its precondition) -/
+theorem xtotal (env : Env) (st : St) (op : XOp) (obj : Obj)
+    (hx : op = .core .extract → (st.objs obj).docstring ≠ none) : (xstep env st op obj).1.isOk = true := by
+  cases op with
+  | core o => exact total env st o obj (fun h => hx (by rw [h]))
+  | typ => exact type_total env st obj
+  | const => exact constant_total env st obj
+  | sig => exact (signature_total env st obj).1
+  | classSig => exact class_signature_total env st obj
+  | decorators => exact decorators_total env st obj
+  | search => exact search_total env st obj
+
+/-- a whole run of such calls returns from every one of them -/
+theorem xrun_total (env : Env) : ∀ (ops : List (XOp × Obj)) (st : St),
+    (∀ p ∈ ops, p.1 = .core .extract → (st.objs p.2).docstring ≠ none) →
+    ∀ o ∈ (xrun env st ops).1, o.isOk = true
+  | [], st, _ => by simp [xrun]
+  | (op, obj) :: rest, st, hx => by
+    intro o ho
+    simp only [xrun, List.mem_cons] at ho
+    rcases ho with rfl | ho
+    · exact xtotal env st op obj (fun h => hx (op, obj) (by simp) h)
+    · refine xrun_total env rest (xstep env st op obj).2 ?_ o ho
+      intro p hp hpe
+      rw [(loose_xstep env st op obj).docstring p.2]
+      exact hx p (List.mem_cons_of_mem _ hp) hpe
 
 /-- … in particular: a failure while rendering anything about `obj` never changes what is shown or
 reported for an unrelated object `B` -/
